@@ -138,6 +138,38 @@ def c02() -> List[M]:
     ]
 
 
+def c09() -> List[M]:
+    return [
+        M("C09", "revert-fix-execute-oserror", P, "        except (asyncio.CancelledError, OSError):\n            raise RequestFailedException(",
+          "        except (asyncio.CancelledError, ConnectionRefusedError):\n            raise RequestFailedException(", "C09.R1"),
+        M("C09", "revert-fix-error-received-guard", P, "        try:\n            self.response_future.set_exception(exc)\n        except asyncio.InvalidStateError:\n            logger.debug(\"Response already handled.\")\n",
+          "        self.response_future.set_exception(exc)\n", "C09.R2"),
+        M("C09", "revert-fix-discover-decode", INIT, "        except (InverterError, UnicodeDecodeError) as ex:\n            failures.append(ex)\n\n    # Probe",
+          "        except InverterError as ex:\n            failures.append(ex)\n\n    # Probe", "C09.R1"),
+        M("C09", "revert-fix-dt-model-decode", DT, "            except (InverterError, UnicodeDecodeError) as e:", "            except InverterError as e:", "C09.R1"),
+        M("C09", "execute-lets-cancelled-through", P, "        except (asyncio.CancelledError, OSError):\n            raise RequestFailedException(",
+          "        except OSError:\n            raise RequestFailedException(", "C09.R1"),
+        M("C09", "decode-helper-wrong-handler", INV, "        except ValueError:\n            return data.hex()", "        except KeyError:\n            return data.hex()", "C09.R1"),
+        M("C09", "es-firmware-int-unprotected", ES, "        except ValueError:\n            logger.exception(\"Error decoding firmware version %s.\", self.firmware)",
+          "        except KeyError:\n            logger.exception(\"Error decoding firmware version %s.\", self.firmware)", "C09.R1"),
+        M("C09", "search-uses-ascii-decode", INIT, "            return result.response_data()\n", "            return result.response_data().decode(\"ascii\").encode(\"ascii\")\n", "C09.R1"),
+        M("C09", "udp-invalid-state-handler-removed", P, "        except asyncio.InvalidStateError:\n            logger.debug(\"Response already handled: %s\", data.hex())\n        except RequestRejectedException as ex:\n            logger.debug(\"Received exception response: %s\", data.hex())\n            if self.response_future and not self.response_future.done():\n                self.response_future.set_exception(ex)\n            self._close_transport()",
+          "        except RequestRejectedException as ex:\n            logger.debug(\"Received exception response: %s\", data.hex())\n            if self.response_future and not self.response_future.done():\n                self.response_future.set_exception(ex)\n            self._close_transport()", "C09.R2"),
+        M("C09", "tcp-rejected-handler-unguarded", P, "            if self.response_future and not self.response_future.done():\n                self.response_future.set_exception(ex)\n            # self._close_transport()",
+          "            self.response_future.set_exception(ex)\n            # self._close_transport()", "C09.R2"),
+        M("C09", "counter-not-reset-on-success", INV, "            self._consecutive_failures_count = 0\n            return result", "            return result", "C09.R3"),
+        M("C09", "counter-double-increment", INV, "        except RequestFailedException as ex:\n            self._consecutive_failures_count += 1\n",
+          "        except RequestFailedException as ex:\n            self._consecutive_failures_count += 1\n            self._consecutive_failures_count += 1\n", "C09.R3"),
+        M("C09", "counter-not-passed", INV, "            raise RequestFailedException(ex.message, self._consecutive_failures_count) from None", "            raise RequestFailedException(ex.message) from None", "C09.R3"),
+        M("C09", "counter-incremented-by-two", INV, "        except MaxRetriesException:\n            self._consecutive_failures_count += 1", "        except MaxRetriesException:\n            self._consecutive_failures_count += 2", "C09.R3"),
+        M("C09", "es-bypasses-read-from-socket", ES, "        response = await self._read_from_socket(self._READ_DEVICE_RUNNING_DATA)\n", "        response = await self._READ_DEVICE_RUNNING_DATA.execute(self._protocol)\n", "C09.R3"),
+        M("C09", "exception-drops-count", "goodwe/exceptions.py", "        self.consecutive_failures_count: int = consecutive_failures_count", "        self.consecutive_failures_count: int = 0", "C09.R3"),
+        M("C09", "benign-error-received-done-guard", P, "        try:\n            self.response_future.set_exception(exc)\n        except asyncio.InvalidStateError:\n            logger.debug(\"Response already handled.\")\n",
+          "        if self.response_future and not self.response_future.done():\n            self.response_future.set_exception(exc)\n", "clean"),
+        M("C09", "benign-tcp-narrower-retry-handler", P, "        except (ConnectionRefusedError, TimeoutError, OSError, asyncio.TimeoutError):", "        except (OSError, asyncio.TimeoutError):", "clean"),
+    ]
+
+
 def corpus() -> List[M]:
     out: List[M] = []
     for name, fn in sorted(globals().items()):
